@@ -23,8 +23,10 @@ def wsgi_str(b):
 
 
 def make_environ(method='GET', target='/', headers=None, body=b'', file_wrapper=None,
-                 script_name='', host='sim.test', scheme='http'):
-    """*target* is the raw request target (percent-encoded path[?query])."""
+                 script_name='', host='sim.test', scheme='http', errors_stream=None):
+    """*target* is the raw request target (percent-encoded path[?query]).
+    errors_stream: None (accepts any text) | 'ascii' | 'utf8' -- the server's error log is a text stream in an encoding
+    of the SERVER's choosing: text it cannot encode makes write() fail"""
     path, _, query = target.partition('?')
     env = {
         'REQUEST_METHOD': method,
@@ -54,6 +56,9 @@ def make_environ(method='GET', target='/', headers=None, body=b'', file_wrapper=
             env['HTTP_' + kk] = v
     if file_wrapper is not None:
         env['wsgi.file_wrapper'] = file_wrapper
+    if errors_stream:
+        env['wsgi.errors'] = io.TextIOWrapper(io.BytesIO(), encoding={'ascii': 'ascii', 'utf8': 'utf-8'}[errors_stream],
+                                              errors='strict', write_through=True)
     return env
 
 
